@@ -72,9 +72,8 @@ impl Lexer {
     /// This function will update the current character and the position
     /// of the Lexer struct.
     fn consume_char(&mut self) {
-        // Get the next character
-        if let Some(ch) = self.peek(1) {
-            // Update the position
+        // Update the position from the character we are moving past
+        if let Some(ch) = self.current() {
             if ch == '\n' {
                 self.row += 1;
                 self.col = 0;
@@ -135,19 +134,17 @@ impl Lexer {
     /// Get a range from the current character.
     ///
     /// This function will return a range with the start and end position
-    /// being the current position of the lexer.
+    /// being the current position of the lexer. Like every other token range,
+    /// the end position is inclusive.
     fn get_range(&self) -> Range {
-        let mut end = self.get_pos();
-        end.increment_column();
-        Range::new(self.get_pos(), end)
+        Range::new(self.get_pos(), self.get_pos())
     }
 
     /// Get the current position of the lexer.
     ///
     /// This function will return the current position of the lexer.
     fn get_pos(&self) -> Position {
-        let column = if self.col == 0 { 0 } else { self.col - 1 };
-        Position::new(self.row, column, self.pos)
+        Position::new(self.row, self.col, self.pos)
     }
 
     /// Lex a unicode escape code.
